@@ -659,6 +659,14 @@ func (c *FnCtx) evalCall(x *ECall, env *Env) (TV, error) {
 				return TV{ite(eq(a.t, tZero), tZero, sel(ml, a.t)), intT}, nil
 			case *types.Array:
 				return TV{intLit(at.Len()), intT}, nil
+			case *types.Chan:
+				// cap(ch): the channel's buffer size; len(ch): the length last observed by the code
+				u.declareFun("chancap", []Sort{SInt}, SInt)
+				if id.Name == "cap" {
+					return TV{mk(SInt, "chancap", a.t), intT}, nil
+				}
+				c.g.heapSorts[chLenKey] = arraySort(SInt, SInt)
+				return TV{sel(c.heap(env.st, chLenKey, arraySort(SInt, SInt)), a.t), intT}, nil
 			}
 			return TV{}, fmt.Errorf("len of %s", a.typ)
 		case "iface":
